@@ -88,6 +88,36 @@ pub fn run(id: &'static str, tier: Tier, seed: u64) -> Option<Evidence> {
         "C05" | "C06" | "C07" | "C19" => Some(run_writer(id, tier, seed, &ctx, sh)),
         "C08" | "C09" | "C10" | "C11" | "C15" | "C16" => Some(run_queue(id, tier, seed, &ctx, sh)),
         "C13" | "C14" => Some(run_sockets(id, tier, seed, &ctx, sh)),
+        "C12" => {
+            use crate::stress::{StressCampaign, StressSink};
+            let mut ev = Evidence::new(
+                id,
+                "exploration",
+                tier,
+                seed,
+                "2..16 threads share one Arc<StatsdClient> over a buffered sink (spy channel, Unix datagram socket, UDP socket; capacities 24..512); each thread emits 100..1500 counters whose key encodes (thread, sequence number), interleaves client.flush() and seed-derived yields. After the final drop: every datagram consists of whole lines within capacity, every acknowledged metric appears exactly once (UDP: at most once, loss not judged), each thread's sequence numbers increase across the datagram stream (spy and Unix, which are FIFO), every emit/flush returned Ok. Thorough adds a blocking Unix socket whose receiver is not read for 15 ms, so one thread blocks in sendto inside the sink's critical section while the others emit. Non-trivial: a run in which some datagram carries lines of >=2 threads (the lock was really contended); distinct by case hash.",
+            );
+            ev.assume("OS schedules are sampled, not enumerated, and are not a function of the seed (the seed fixes workloads and yield patterns only)");
+            ev.assume("realistic failure modes of a forbid(unsafe) crate here are lock-discipline edits (try_lock, lock released between metric and terminator, per-thread buffers), which heavy contention exposes quickly");
+            let c = StressCampaign { name: "stress-shared-client", sinks: &[StressSink::Spy, StressSink::Spy, StressSink::Unix, StressSink::Udp], judge_errors: false };
+            if driver::run_random(&c, &ev, &ctx, scale(tier.pick(300, 3_000)), 2) && tier == Tier::Thorough {
+                let b = StressCampaign { name: "stress-blocked-receiver", sinks: &[StressSink::UnixBlockedReceiver], judge_errors: false };
+                driver::run_random(&b, &ev, &ctx, scale(200), 2);
+            }
+            Some(ev)
+        }
+        "C17" => {
+            let mut ev = Evidence::new(
+                id,
+                "exploration",
+                tier,
+                seed,
+                "one fresh child process per generated case = {global client: unset | prefix, default tags, container, handler, sink outcome per invocation; optional second set_global_default}, 1..40 macro invocations over the seven macros x all 22 value types x 0..3 `key => value` tags, every argument wrapped in a counting once(..). Oracle in the parent: exactly one emit whose line equals the reference renderer and the line emitted in the same child by the explicit get_global_default().unwrap().<kind>_with_tags(k, v).with_tag(..)*.send() chain; each argument evaluated once; refusing sink => no panic, the client's handler gets exactly that error; unset => every macro panics. Non-trivial: (default tags or a failing sink) and an invocation with >=2 tags; distinct by case hash.",
+            );
+            ev.assume("tag counts above 3 are not instantiated (call sites are static)");
+            driver::run_random(&crate::macros_child::MacroCampaign, &ev, &ctx, scale(tier.pick(600, 20_000)), sh);
+            Some(ev)
+        }
         #[cfg(cadence_verif)]
         "C18" => Some(run_sched(id, tier, seed, &ctx, sh)),
         _ => None,
@@ -405,6 +435,15 @@ fn run_writer(id: &'static str, tier: Tier, seed: u64, ctx: &Ctx, sh: u32) -> Ev
         }
     }
     if id == "C07" {
+        // with a channel that never fails, concurrent emits/flushes must not return errors
+        let sc = crate::stress::StressCampaign {
+            name: "stress-no-spurious-errors",
+            sinks: &[crate::stress::StressSink::Spy, crate::stress::StressSink::Unix],
+            judge_errors: true,
+        };
+        if !driver::run_random(&sc, &ev, ctx, scale(tier.pick(30, 600)), 2) {
+            return ev;
+        }
         let ft = FaultTree { depth: 10 };
         driver::run_random(&ft, &ev, ctx, scale(tier.pick(150, 3_000)), sh);
         ev.set_exhaustive(false);
@@ -456,6 +495,10 @@ pub fn replay(id: &'static str, campaign: &str, case: &serde_json::Value, tier: 
         }
     }
     try_camp!(ConcSockCampaign);
+    try_camp!(crate::macros_child::MacroCampaign);
+    try_camp!(crate::stress::StressCampaign { name: "stress-shared-client", sinks: &[crate::stress::StressSink::Spy], judge_errors: false });
+    try_camp!(crate::stress::StressCampaign { name: "stress-blocked-receiver", sinks: &[crate::stress::StressSink::UnixBlockedReceiver], judge_errors: false });
+    try_camp!(crate::stress::StressCampaign { name: "stress-no-spurious-errors", sinks: &[crate::stress::StressSink::Spy], judge_errors: true });
     #[cfg(cadence_verif)]
     {
         try_camp!(crate::sched::SchedCampaign);
